@@ -96,6 +96,16 @@ func AltOK() bool {
 	return *altOK
 }
 
+// UsesAlt reports whether a universe needs the alternative SPKI encoding.
+func UsesAlt(specs []CertSpec) bool {
+	for _, s := range specs {
+		if s.Key >= AltSPKI {
+			return true
+		}
+	}
+	return false
+}
+
 var keyCache = map[int]crypto.Signer{}
 
 // KeyFor returns the (deterministic) private key with the given id.
